@@ -7,9 +7,9 @@ Lines (tab separated; `k=v` fields, lists `;`-separated with `:` inside):
   liq.env    A=<id:decimals:price|->…  P=<id:app:minCr:assetIn:assetOut:oracle:fixed>…  APP=<id:esm:kill:wl2:dutch2:wl1:auc1>…
   liq.block  <height> <pre…> => <ok|panic> <post…>
   liq.msg    <a> <b> <pre…> => <ok|err|panic> <post…>      v2: a = liqType, b = id;  v1: a = app id, b = vault id
-  liq.slice  len off batch s1 e1 s2 e2                      real GetSliceStartEndForLiquidations of both generations
-  liq.cr     product amountIn totalOut <raw|err|panic>      real vault CalculateCollateralizationRatio (current env)
-  liq.br     assetIn assetOut amountIn debt <raw|err|panic> real lend CalculateCollateralizationRatio (current env)
+  liq.slice.single  len off batch s1 e1 s2 e2                      real GetSliceStartEndForLiquidations of both generations
+  liq.cr.single     product amountIn totalOut <raw|err|panic>      real vault CalculateCollateralizationRatio (current env)
+  liq.br.single     assetIn assetOut amountIn debt <raw|err|panic> real lend CalculateCollateralizationRatio (current env)
 pre  := V=<id:app:prod:in:out:int:fee>… C= O=<key:off>… VB= AB= LID= AID= PB= B=<borrow>…
 post := V=<ids,> C= O= VB= AB= LID= AID= NL=<id:orig:app:amt:isBorrow>… NA=<id:locked:asset:amt>… PB= BL=<ids,>
 Monitors (on REAL pre/post): safe_never_seized, slice_bounds, seized_within_bound, seized_within_two_sweeps,
@@ -298,7 +298,7 @@ def handle (st : St) (seq : String) (f : List String) : St × List String :=
     | none => (st, [s!"BAD\t{seq}\tenv"])
   | "liq.block" :: _h :: fs => handleBlock st seq fs
   | "liq.msg" :: a :: b :: fs => handleMsg st seq (nat! a) (nat! b) fs
-  | ["liq.slice", l, o, b, s1, e1, s2, e2] =>
+  | ["liq.slice.single", l, o, b, s1, e1, s2, e2, _] =>
     let m := sliceBoundsI (int! l) (int! o) (int! b)
     let d1 := if m != (int! s1, int! e1) then [s!"DIFF\t{seq}\tslice v1 model={m.1},{m.2} impl={s1},{e1}"] else []
     let d2 := if m != (int! s2, int! e2) then [s!"DIFF\t{seq}\tslice v2 model={m.1},{m.2} impl={s2},{e2}"] else []
@@ -306,14 +306,14 @@ def handle (st : St) (seq : String) (f : List String) : St × List String :=
     let ok (s e : Int) : Bool := int! l < 0 || (0 ≤ s && s ≤ e && e ≤ int! l)
     let mon := if ok (int! s1) (int! e1) && ok (int! s2) (int! e2) then [] else [s!"MON\t{seq}\tslice_bounds"]
     (st, d1 ++ d2 ++ mon)
-  | ["liq.cr", p, ai, to, res] =>
+  | ["liq.cr.single", p, ai, to, res, _] =>
     match st.env.product? (nat! p) with
     | none => (st, [s!"BAD\t{seq}\tunknown product"])
     | some pr =>
       let m := showR (vaultCR st.env pr (int! ai) (int! to))
       let r := if res = "panic" then "err" else res
       (st, if m = r then [] else [s!"DIFF\t{seq}\tcr model={m} impl={res}"])
-  | ["liq.br", ai, ao, am, d, res] =>
+  | ["liq.br.single", ai, ao, am, d, res, _] =>
     let b : Borrow := { id := 0, app := 0, pool := 0, assetIn := nat! ai, assetOut := nat! ao, amountIn := int! am, debt := int! d,
                         bridge := .same, liquidated := false, lt := 0, ltFirst := 0, ltSecond := 0 }
     let m := showR (borrowRatio st.env b)
